@@ -2,7 +2,7 @@
 import json, os, re, copy
 import vlib
 
-MC_CFGS = ["A", "Af", "B", "C", "D", "E", "F"]
+MC_CFGS = ["A", "Af", "B", "C", "D", "E", "F", "N"]
 
 
 def model_check(ctx, cfgs):
